@@ -178,16 +178,22 @@ def const_formula(env, rnd):
 
 
 def sorts_formula(env, rnd):
-    """Custom sorts (arity 0 and parametric, one instance), as sorts of symbols, bound variables, array components."""
+    """Custom sorts (arity 0 and parametric, several instances, names that need quoting) as sorts of symbols,
+    bound variables, array components, array-value index sorts, and occurring only under a function application."""
     m, tm = env.formula_manager, env.type_manager
-    U, V = tm.Type("U", 0), tm.Type("Vs", 0)
-    P = tm.get_type_instance(tm.Type("Pair", 2), U, INT)
-    u1, u2, v1, p1 = m.Symbol("u1", U), m.Symbol("u2", U), m.Symbol("w1", V), m.Symbol("p1", P)
+    U, V = tm.Type("U", 0), tm.Type(rnd.choice(["Vs", "my sort", "s;t", "1st", "a.b"]), 0)
+    Pd = tm.Type(rnd.choice(["Pair", "a pair"]), 2)
+    P, P2 = tm.get_type_instance(Pd, U, INT), tm.get_type_instance(Pd, V, U)
+    u1, u2, v1, p1, q1 = m.Symbol("u1", U), m.Symbol("u2", U), m.Symbol("w1", V), m.Symbol("p1", P), m.Symbol("q1", P2)
     g = m.Symbol("gU", FunctionType(U, [U, V]))
+    h = m.Symbol("hI", FunctionType(BOOL, [INT]))
     a = m.Symbol("arrU", ArrayType(U, P))
     parts = [m.Equals(u1, u2), m.Equals(m.Function(g, [u1, v1]), u2), m.Equals(m.Select(a, u1), p1),
              m.ForAll([u1], m.Exists([v1], m.Equals(m.Function(g, [u1, v1]), u2))),
-             m.Equals(m.Array(V, u1, {}), m.Array(V, u2, {}))]
+             m.Equals(m.Array(V, u1, {}), m.Array(V, u2, {})),
+             m.Function(h, [m.Ite(m.Equals(q1, m.Symbol("q2", P2)), m.Int(1), m.Int(2))]),
+             m.Function(h, [m.Select(m.Array(V, m.Int(0)), v1)]),
+             m.Equals(m.Symbol("p2", P), p1)]
     rnd.shuffle(parts)
     return m.And(parts[:rnd.randint(1, len(parts))])
 
